@@ -121,6 +121,7 @@ fn main() {
         let mut st = Stats::default();
         let (s, how) = gen::descriptor_string(rng);
         rep.count(&format!("rand_desc.made_by.{how}"));
+        if s.contains(subject::SURROGATE_STANDIN) { rep.count("rand_desc.with_unpaired_surrogate"); }
         let dims = s.as_bytes().iter().fold((0usize, 0usize), |(best, cur), b| if *b == b'[' { (best.max(cur + 1), cur + 1) } else { (best, 0) }).0;
         match dims { 254 => rep.count("rand_desc.run_of_254_brackets"), 255 => rep.count("rand_desc.run_of_255_brackets"), 256 => rep.count("rand_desc.run_of_256_brackets"), d if d > 256 => rep.count("rand_desc.run_of_more_brackets"), _ => {} }
         for k in Kind::ALL {
@@ -156,6 +157,7 @@ fn main() {
         let s = gen::name_string(rng);
         if s == "<init>" || s == "<clinit>" { rep.count("rand_names.special_method_name"); }
         if !s.is_ascii() { rep.count("rand_names.non_ascii"); }
+        if s.contains(subject::SURROGATE_STANDIN) { rep.count("rand_names.with_unpaired_surrogate"); }
         check_name_string(&real, &s, rep, &mut st);
         if is_obj_class_name(&s) {
             let inner = gen::simple_name(rng);
@@ -196,6 +198,8 @@ fn main() {
         meta.oblige("the name enumeration ran to completion", rep.get("enum_names.chunks_completed") == nchunks && rep.get("enum_names.strings_enumerated") == want_names);
         for k in Kind::ALL { meta.oblige(format!("{} descriptors: in-grammar strings were enumerated", k.name()), rep.get(&format!("enum_desc.{}.in_grammar", k.name())) >= 50); }
         meta.oblige("strings with runs of exactly 254, 255 and 256 '[' were parsed", rep.get("rand_desc.run_of_254_brackets") > 0 && rep.get("rand_desc.run_of_255_brackets") > 0 && rep.get("rand_desc.run_of_256_brackets") > 0);
+        meta.oblige("names and descriptors containing an unpaired surrogate were judged", rep.get("rand_names.with_unpaired_surrogate") >= 100 && rep.get("rand_desc.with_unpaired_surrogate") >= 100);
+        meta.oblige("descriptors with a tag replaced by a code point above U+00FF with the same low byte were parsed", rep.get("rand_desc.made_by.tag_replaced_by_high_code_point_with_same_low_byte") >= 100);
         meta.oblige("structures with 254 and 255 dimensions were written", rep.get("rand_types.dims.254") > 0 && rep.get("rand_types.dims.255") > 0);
         meta.oblige("all eight primitive types were written", rep.seen_n("primitives_written") == 8);
         meta.oblige("<init>/<clinit> were given to the name predicates", rep.get("rand_names.special_method_name") > 0);
